@@ -32,6 +32,9 @@ pub enum VerifierError {
     RemainderDegreeNotValid,
     /// FRI remainder degree is greater than the polynomial degree expected for the last layer.
     RemainderDegreeMismatch(usize),
+    /// The number of FRI layer commitments does not match the number of layers implied by the
+    /// protocol parameters.
+    NumLayerCommitmentsMismatch(usize, usize),
     /// Polynomial degree at one of the FRI layers could not be divided evenly by the folding factor.
     DegreeTruncation(usize, usize, usize),
 }
@@ -66,6 +69,9 @@ impl fmt::Display for VerifierError {
             }
             Self::RemainderDegreeMismatch(degree) => {
                 write!(f, "FRI remainder is not a valid degree {degree} polynomial")
+            }
+            Self::NumLayerCommitmentsMismatch(expected, actual) => {
+                write!(f, "expected {expected} FRI layer commitments, but {actual} were provided")
             }
             Self::DegreeTruncation(degree, folding, layer) => {
                 write!(f, "degree reduction from {degree} by {folding} at layer {layer} results in degree truncation")
